@@ -46,6 +46,7 @@ TAGS = {
     33: 'add_admid changes other columns / rows / order / dtypes, or its ADMID column is not get_admid',
     34: 'get_ids / get_number_of_individuals differ from the walk',
     35: 'get_covariate_baselines differs from the walk',
+    37: 'get_observations(keep_index=True) differs from the walk (labels or values)',
     36: 'expand_additional_doses: the expanded frame is not the multiset of implied doses (TIME + k*II, other fields kept)',
 }
 CORR = set(range(1, 10))
@@ -61,16 +62,17 @@ ORACLE = {
     17: (5, []),
     18: (5, [(222, 'C14-EXPAND-ID-ORDER')]),
     19: (5, []),
-    28: (5, [(205, 'C14-DOSEID-RESET-GROUP'), (206, 'C14-DOSEID-OBS-BETWEEN-DOSES'), (213, 'C14-TAD-RESET-NEGATIVE')]),
+    28: (5, [(205, 'C14-DOSEID-RESET-GROUP'), (206, 'C14-DOSEID-OBS-BETWEEN-DOSES'), (213, 'C14-TAD-RESET-NEGATIVE'),
+             (223, 'C14-DOSEID-RESET-GROUP'), (224, 'C14-DOSEID-OBS-BETWEEN-DOSES')]),
     20: (6, []), 21: (6, []), 22: (6, []), 31: (6, []),
     23: (7, []), 24: (7, []),
     25: (8, []),
     26: (9, [(208, 'C14-EVID-OTHER-RECORDS')]),
     27: (0, []),
-    32: (8, []), 33: (9, []), 34: (7, []), 35: (7, []), 36: (4, []),
+    32: (8, []), 33: (9, []), 34: (7, []), 35: (7, []), 36: (4, []), 37: (6, []),
 }
 # input-domain guards (not defects): an oracle failure is also excused when one of these is false
-DOMAIN = {13: [204, 203], 14: [204], 18: [204, 217], 28: [204, 203], 16: [204]}
+DOMAIN = {13: [204, 203], 14: [204], 18: [204, 217], 28: [204, 203, 225], 16: [204]}
 
 FIELD_OF_TYPE = {'id': 'id', 'idv': 'time', 'dose': 'amt', 'dv': 'dv', 'event': 'evid', 'mdv': 'mdv',
                  'compartment': 'cmt', 'admid': 'admid', 'ss': 'ss', 'additional': 'addl', 'ii': 'ii'}
@@ -567,13 +569,16 @@ def observe(spec):
     add_cmt_t = run('add_cmt', lambda: fns.add_cmt(model), added(fns.add_cmt, 'CMT', 'compartment', 'add_cmt_meta'))
     add_admid_t = run('add_admid', lambda: fns.add_admid(model), added(fns.add_admid, 'ADMID', 'admid', 'add_admid_meta'))
 
+    okeep = get_observations(model, keep_index=True); unchanged()
+    obs_keep = ct.lst([ct.pair(ex.z(l), ex.z(v, True)) for l, v in okeep.items()])
+
     term = ('(mkCase ' + ds + f' {ncov}%nat ' + mi + '\n  ' + mdv + '\n  ' + evid + '\n  ' + obs + '\n  ' + doses
             + '\n  ' + nobs + ' ' + nobs_per + '\n  ' + ct.lst(bl_rows) + ' ' + tvc + '\n  ' + doseid + '\n  ' + expand
             + ' ' + ct.boolean(info.get('expand_idint', False)) + '\n  ' + tad + ' ' + ct.boolean(info.get('tad_idint', False))
             + '\n  ' + cmt + '\n  ' + admid + ' ' + ct.boolean(immutable[0])
             + '\n  ' + ids + ' ' + nind + ' ' + covbase + '\n  ' + add_cmt_t + ' ' + ct.boolean(info.get('add_cmt_meta', False))
-            + '\n  ' + add_admid_t + ' ' + ct.boolean(info.get('add_admid_meta', False)) + ')')
-    info['ncalls'] = 18
+            + '\n  ' + add_admid_t + ' ' + ct.boolean(info.get('add_admid_meta', False)) + '\n  ' + obs_keep + ')')
+    info['ncalls'] = 19
     return term, info
 
 
@@ -653,7 +658,7 @@ def run_specs(ctx, specs, label, quiet=False):
     ctx.coverage['skipped_unconvertible'] = ctx.coverage.get('skipped_unconvertible', 0) + skipped
     if len(specs) > 64:
         ctx.log(f'implementation run on {len(specs)} datasets; comparing inside Coq')
-    verdicts = ctx.run_cases(label, IMPORTS, 'case', terms, 'verdict', shard=60 if ctx.tier == 'quick' else 100)
+    verdicts = ctx.run_cases(label, IMPORTS, 'case', terms, 'verdict', shard=45 if ctx.tier == 'quick' else 100)
     stats = {'ok': 0, 'known': 0, 'violation': 0, 'broken': 0}
     for spec, tags, info in zip(kept, verdicts, infos):
         stats[classify(ctx, spec, tags, info, quiet)] += 1
@@ -727,7 +732,7 @@ def run(ctx):
     reg = sorted((VERIF / 'regress' / 'C14').glob('*.json'))
     specs = [json.loads(p.read_text()) for p in reg]
     specs = [s.get('spec', s) for s in specs]
-    n = 600 if ctx.tier == 'quick' else 2000
+    n = 500 if ctx.tier == 'quick' else 2000
     n = int(os.environ.get('VERIF_C14_NGEN', n))       # sensitivity experiments only
     specs += [gen_spec(ctx.rng) for _ in range(n)]
     if ctx.tier == 'thorough' and 'VERIF_C14_NGEN' not in os.environ:
@@ -743,7 +748,7 @@ def run(ctx):
     ctx.coverage['programs'] = len(kept)
     ctx.coverage['rule'] = ('random event datasets (1-6 individuals, 1-7 records each, doses/observations/other/reset '
                             'events with ties, ADDL/II, SS, optional EVID/MDV/CMT/ADMID/RATE/covariate columns, id order '
-                            'ascending/shuffled/non-contiguous, default or explicit index) from VERIF_SEED; 18 derivations '
+                            'ascending/shuffled/non-contiguous, default or explicit index) from VERIF_SEED; 19 derivations '
                             'per dataset; non-trivial = at least two records; distinct by dataset text')
     ctx.coverage['case_status'] = stats
 
@@ -752,7 +757,7 @@ def run(ctx):
     ctx.coverage['input_distribution'] = {
         'rows_hist': {str(k): sum(1 for i in infos if i['nrows'] == k) for k in sorted({i['nrows'] for i in infos})},
         'impl_errors': {k: sum(1 for i in infos if k in i['errors']) for k in sorted({k for i in infos for k in i['errors']})},
-        'guard_false': {str(g): count(g) for g in range(201, 223)},
+        'guard_false': {str(g): count(g) for g in range(201, 226)},
         'oracle_tags': {str(t): count(t) for t in sorted(ORACLE)},
         'with_expansion': sum(1 for s in kept if any(t == 'additional' for _, t in s['cols'])),
         'with_event_column': sum(1 for s in kept if any(t == 'event' for _, t in s['cols'])),
